@@ -116,6 +116,10 @@ func (m singleModel) Initialise() (error, TimeSteppingModel, data.ND3Float64, da
 		return errors.New("No input timeseries provided"), nil, nil, nil, warnings
 	}
 
+	if inputs.Len3() == 0 {
+		return errors.New("Input timeseries are empty: no timesteps to run"), nil, nil, nil, warnings
+	}
+
 	return nil, model, inputs, states, warnings
 }
 
